@@ -88,8 +88,9 @@ theorem not_refines_of_panics {P : Params} {init : Fs} {cfg : Cfg} {h : List Op}
 
 theorem witness_F10_not_refines : ¬ Refines wP wInit 0 hF10 :=
   not_refines_of_panics (by decide)
-theorem witness_F11_not_refines : ¬ Refines wP wInit 0 hF11 :=
-  not_refines_of_differsAt (q := [1, 10]) (by decide)
+/-- F11 is fixed in /repo (`process` runs `clean_files` before its early return): the former
+counterexample now lies inside `H10` -/
+theorem hF11_inside : H10 wP 1 wInit 0 hF11 = true := by decide
 theorem witness_F11b_not_refines : ¬ Refines wP wInit 0 hF11b :=
   not_refines_of_differsAt (q := [1, 10]) (by decide)
 theorem witness_F12_not_refines : ¬ Refines wP wInit12 0 hF12 :=
@@ -101,7 +102,7 @@ theorem witness_E_not_refines : ¬ Refines wP wInit 0 hE :=
 
 /-- each counterexample sits in the region named after it, and `hGood` is inside `H10` -/
 theorem witness_regions :
-    sessionRegion wP 1 wInit 0 hF10 = some .F10 ∧ sessionRegion wP 1 wInit 0 hF11 = some .F11
+    sessionRegion wP 1 wInit 0 hF10 = some .F10
     ∧ sessionRegion wP 1 wInit 0 hF11b = some .F11b ∧ sessionRegion wP 1 wInit12 0 hF12 = some .F12
     ∧ sessionRegion wP 1 wInit 0 hF13 = some .F13 ∧ sessionRegion wP 1 wInit 0 hE = some .E := by
   decide
